@@ -531,7 +531,21 @@ def call_table(rng):
           ("aotools.functions.karhunenLoeve.stf_vonKarman", [bimg(300) / 10., 3.], {}, BIG),
           ("aotools.functions.karhunenLoeve.stf_kolmogorov", [bimg(520) / 10.], {}, BIG),
           ("aotools.wfs.wfslib.findActiveSubaps", [40, (bimg(520) > 10).astype(float), 0.5], {}, BIG)]
-    return T
+    # round 6 — neighbours: for the first small row of every function, the same call with ONE float argument changed (x 1.37), placed right
+    # after it.  In this process the row runs before its neighbours, in the fresh interpreter (reverse order) after them: a result kept
+    # from one call and handed to a call that differs in an argument the memo's key forgot (seeded change C20-K: the inner-scale cut-off
+    # of ft_phase_screen kept per (N, delta, L0)) makes the two disagree.
+    seen, out = set(), []
+    for row in T:
+        out.append(row)
+        path, args, kw = row[0], row[1], row[2]
+        if path in seen or (len(row) > 3 and row[3].get("once")) or path.endswith(".optimal_grouping"):
+            continue
+        seen.add(path)
+        for i, a in enumerate(args):
+            if isinstance(a, float) and a == a and abs(a) not in (0.0, float("inf")):
+                out.append((path, [(x * 1.37 if j == i else copy.deepcopy(x)) for j, x in enumerate(args)], copy.deepcopy(kw)) + tuple(row[3:]))
+    return out
 
 
 def resolve(path):
